@@ -293,6 +293,11 @@ package bpmn
 //@   requires held(mu(mapping.lock)) == 2
 //@   ensures held(mu(mapping.lock)) == 2
 
+// Looking a flow node up reads the mapping under its read lock and does nothing else.
+//@ func (*FlowNodeMapping).ResolveElementToFlowNode
+//@   prop C01 C17
+//@   flag emits none
+
 //@ func (*FlowNodeMapping).Finalize
 //@   prop C17
 //@   flag entrylocks
@@ -636,7 +641,8 @@ package bpmn
 //@   prop C01 C04 C05
 //@   flag emits opaque+calls
 //@   flag countresult
-//@   ensures [unconditional-is-taken] unconditional ==> result && err == nil && evlen == old(evlen)
+//@   ensures [unconditional-is-taken] unconditional ==> result && err == nil && evlen == old(evlen) &&
+//@             count(Call, code("expression|IEvaluator.EvaluateExpression")) == old(count(Call, code("expression|IEvaluator.EvaluateExpression")))
 //@   ensures [error-means-not-taken] err != nil ==> !result
 //@   ensures [a-condition-is-evaluated-on-variables-read-by-this-very-call]
 //@             count(Call, code("expression|IEvaluator.EvaluateExpression")) > old(count(Call, code("expression|IEvaluator.EvaluateExpression"))) ==>
@@ -673,6 +679,7 @@ package bpmn
 //@             count(WgDone, f.flowWaitGroup) == old(count(WgDone, f.flowWaitGroup)) &&
 //@             count(Call, code("id|IGenerator.New")) == old(count(Call, code("id|IGenerator.New")))
 //@   ensures [visit-iff-flowed] count(Trace, VisitTrace) == old(count(Trace, VisitTrace)) + (flowed ? 1 : 0)
+//@   ensures [a-flow-the-node-pre-selected-is-taken-without-evaluating-its-condition] unconditional ==> count(Call, code("expression|IEvaluator.EvaluateExpression")) == old(count(Call, code("expression|IEvaluator.EvaluateExpression")))
 //@   ensures [moving-a-token-stores-nothing] storesNothing()
 //@   ensures f.retry == old(f.retry) && f.id == old(f.id) && f.tracer == old(f.tracer) && f.idGenerator == old(f.idGenerator) &&
 //@           f.flowNodeMapping == old(f.flowNodeMapping) && f.flowWaitGroup == old(f.flowWaitGroup) && f.locator == old(f.locator)
@@ -696,6 +703,7 @@ package bpmn
 //@             count(WgDone, f.flowWaitGroup) == old(count(WgDone, f.flowWaitGroup)) &&
 //@             count(Call, code("id|IGenerator.New")) == old(count(Call, code("id|IGenerator.New"))) + (flowed ? 1 : 0)
 //@   ensures [preparing-a-fork-stores-nothing] storesNothing()
+//@   ensures [a-flow-the-node-pre-selected-is-forked-without-evaluating-its-condition] unconditional ==> count(Call, code("expression|IEvaluator.EvaluateExpression")) == old(count(Call, code("expression|IEvaluator.EvaluateExpression")))
 //@   ensures [current-token-untouched] f.current == old(f.current) && f.sequenceFlowId == old(f.sequenceFlowId) && f.terminate == old(f.terminate) &&
 //@             f.actionTransformer == old(f.actionTransformer) && f.retry == old(f.retry) && f.id == old(f.id) && f.tracer == old(f.tracer) &&
 //@             f.idGenerator == old(f.idGenerator) && f.flowNodeMapping == old(f.flowNodeMapping) && f.flowWaitGroup == old(f.flowWaitGroup) && f.locator == old(f.locator)
@@ -784,6 +792,9 @@ package bpmn
 //@             (old(f.retry) != nil ==> f.retry == old(f.retry))
 //@     iter ensures [only-a-retry-repeats-the-request-after-an-error] handler.Mode == RetryMode
 //@     iter ensures [a-token-told-to-withdraw-does-not-go-on-wherever-it-waits] !terminate
+//@     step ensures [an-action-a-node-hands-out-goes-through-the-tokens-transformer-whatever-the-token-then-does @C06]
+//@             count(Recv, flowAction) > old(count(Recv, flowAction)) && old(f.actionTransformer) != nil ==>
+//@             count(FnCall, fncode(old(f.actionTransformer))) > old(count(FnCall, fncode(old(f.actionTransformer))))
 //@     iter ensures [the-retry-budget-is-touched-only-in-a-step-that-read-the-handlers-decision]
 //@             f.retry != old(f.retry) || (f.retry != nil && f.retry.attempts != old(f.retry.attempts)) ==>
 //@             count(Recv, ErrHandler) == old(count(Recv, ErrHandler)) + 1
@@ -817,6 +828,8 @@ package bpmn
 //@     invariant forall b int :: off(flowHandlers) <= b && b < off(flowHandlers) + len(flowHandlers) ==> at(flowHandlers, b) != nil &&
 //@               fncode(at(flowHandlers, b)) == code("(*flow).handleAdditionalSequenceFlow$1")
 //@     invariant len(effectiveFlows) >= len(flowHandlers) && (flowed ==> len(effectiveFlows) == len(flowHandlers) + 1) && (!flowed ==> len(effectiveFlows) == len(flowHandlers))
+//@     iter ensures [a-fork-the-node-pre-selected-is-taken-without-evaluating-its-condition @C03]
+//@             1 <= rk6 && rk6 < len(unconditional) && (unconditional[rk6] ==> count(Call, code("expression|IEvaluator.EvaluateExpression")) == old(count(Call, code("expression|IEvaluator.EvaluateExpression"))))
 //@   loop 7 range flowHandlers
 //@     invariant [nothing-is-stored-after-the-answer-has-been-stored] count(Call, code("data|IFlowDataLocator.SetVariable")) == atentry(7, count(Call, code("data|IFlowDataLocator.SetVariable"))) &&
 //@               count(Call, code("data|IItemAware.Put")) == atentry(7, count(Call, code("data|IItemAware.Put")))
